@@ -22,6 +22,9 @@ type verifKindSample struct {
 var verifSamples = []verifKindSample{
 	{"Schema", func() any { return &Schema{} }, `{"type":"object","title":"t","format":"f","description":"d","enum":[1,"a"],"default":{"a":1},"example":[1],"externalDocs":{"url":"https://e"},"uniqueItems":true,"exclusiveMinimum":true,"exclusiveMaximum":true,"nullable":true,"readOnly":true,"allowEmptyValue":true,"deprecated":true,"xml":{"name":"n"},"minimum":1.5,"maximum":2.5,"multipleOf":0.5,"minLength":1,"maxLength":2,"pattern":"^a","minItems":1,"maxItems":2,"items":{"type":"string"},"required":["a"],"properties":{"a":{"type":"integer"}},"minProperties":1,"maxProperties":2,"additionalProperties":{"type":"string"},"discriminator":{"propertyName":"a"},"oneOf":[{"type":"string"}],"anyOf":[{"type":"number"}],"allOf":[{"$ref":"#/components/schemas/X"}],"not":{"type":"boolean"},"x-ext":1}`, nil},
 	{"SchemaZeros", func() any { return &Schema{} }, `{"type":"array","maxItems":0,"maxLength":0,"maxProperties":0,"minimum":0,"maximum":0,"default":0,"example":0,"enum":[0,false,""],"x-ext":0}`, nil},
+	{"SchemaDateTime", func() any { return &Schema{} }, `{"type":"string","format":"date-time","example":"2020-01-01T00:00:00Z","default":"2020-01-01T00:00:00Z","enum":["2020-01-01T00:00:00Z"],"x-ext":"2020-01-01T00:00:00Z"}`, nil},
+	{"SchemaNulls", func() any { return &Schema{} }, `{"type":"string","nullable":true,"default":null,"example":null,"enum":[null,"a"],"x-ext":null}`, nil},
+	{"ExampleNull", func() any { return &Example{} }, `{"summary":"s","value":null}`, nil},
 	{"SchemaAP", func() any { return &Schema{} }, `{"type":"object","writeOnly":true,"additionalProperties":false,"x-ext":{"k":[1,2]}}`, nil},
 	{"Parameter", func() any { return &Parameter{} }, `{"name":"p","in":"query","description":"d","style":"form","explode":true,"allowEmptyValue":true,"allowReserved":true,"deprecated":true,"required":true,"schema":{"type":"string"},"example":"e","examples":{"e":{"value":1}},"content":{"application/json":{"schema":{"type":"string"}}},"x-ext":"v"}`, nil},
 	{"Header", func() any { return &Header{} }, `{"description":"d","style":"simple","explode":false,"deprecated":true,"required":true,"schema":{"type":"string"},"example":"e","x-ext":1}`, nil},
@@ -132,10 +135,16 @@ func verifC03(samples []verifKindSample) {
 	for _, k := range smp.keep {
 		required[k] = true
 	}
-	v := verifChoose("variant", 2*len(keys)+2)
+	v := verifChoose("variant", 2*len(keys)+3)
 	in := map[string]any{}
 	flipped := false
 	switch {
+	case v == 2*len(keys)+2:
+		// a field the specification does not know (and that is not an x- extension) next to all the others
+		for k, m := range obj {
+			in[k] = m
+		}
+		in["unknownField"] = map[string]any{"k": []any{1.0, "u"}}
 	case v == 2*len(keys)+1:
 		// every boolean of the specification's own members negated (explode:false, additionalProperties:true, ...)
 		in = verifFlipBools(obj).(map[string]any)
@@ -171,6 +180,22 @@ func verifC03(samples []verifKindSample) {
 		return
 	}
 	got, ok := verifJSONTree(out)
+	if smp.name == "SchemaNulls" || smp.name == "ExampleNull" {
+		// default / example / value members whose value is null: lost (known finding); everything else must still be there
+		if !flipped {
+			verifKnown("C03-null-valued-member-lost", true)
+			verifAssert(ok && reflect.DeepEqual(got, any(in)), "C03 "+smp.name+": a member whose value is null survives the trip")
+			verifKnown("C03-null-valued-member-lost", false)
+		}
+		rest := map[string]any{}
+		for k, m := range in {
+			if m == nil && (k == "default" || k == "example" || k == "value") {
+				continue
+			}
+			rest[k] = m
+		}
+		in = rest
+	}
 	if flipped {
 		verifAssert(ok && reflect.DeepEqual(verifDropDefaultFalse(got), verifDropDefaultFalse(any(in))), "C03 "+smp.name+": with every boolean negated the serialised JSON equals the input up to members that are false by default")
 	} else {
